@@ -267,7 +267,7 @@ def build():
     common.target64(u)
     common.std_specs(u)
     common.handle_trait(u, P)
-    for h in ('AnnotationHandle', 'TextResourceHandle', 'AnnotationDataSetHandle', 'AnnotationDataHandle', 'DataKeyHandle', 'TextSelectionHandle'):
+    for h in ('AnnotationHandle', 'TextResourceHandle', 'AnnotationDataSetHandle', 'AnnotationDataHandle', 'DataKeyHandle', 'TextSelectionHandle', 'AnnotationSubStoreHandle'):
         common.handle_impl(u, h, P)
     u.trusted_text(u_map.VX_POSITION, 'external_body vx_position: std Iterator::position semantics + structural == on handles (R-outline)')
     u_map.emit_relationmap(u, P, with_canary=False, pushed=True)
@@ -279,6 +279,8 @@ def build():
 
 MAPS = ['dataset_data_annotation_map', 'textrelationmap', 'resource_annotation_metamap', 'dataset_annotation_metamap',
         'annotation_annotation_map', 'key_annotation_metamap', 'data_annotation_metamap']
+# reverse indices `inserted` must leave alone (the reserved key_annotation_map and the substore maps): part of the frame
+UNTOUCHED = ['key_annotation_map', 'annotation_substore_map', 'resource_substore_map', 'dataset_substore_map']
 # index field -> (shape, entries function, config flag)
 INDEX = {
     'annotation_annotation_map': ('bt', 'aa_entries', 'annotation_annotation_map'),
@@ -318,7 +320,7 @@ def emit_inserted(u, P):
     u.item('src/config.rs', 'struct', 'Config', keep_fields=[v[2] for v in INDEX.values()], keep_derives=[])
     u.item('src/error.rs', 'enum', 'StamError', keep_variants=['HandleError'], keep_derives=['Debug'])
     u.item(ST, 'type', 'Store')
-    u.item(AS, 'struct', 'AnnotationStore', keep_fields=['config', 'annotations'] + MAPS, keep_derives=[])
+    u.item(AS, 'struct', 'AnnotationStore', keep_fields=['config', 'annotations'] + MAPS + UNTOUCHED, keep_derives=[])
     u.spec(SPEC, 'contracts/u_index.py:SPEC')
     u.spec(INS_SPEC, 'contracts/u_index.py:INS_SPEC')
     u.trusted_text(TRUSTED_WALK, 'external_body vx_selector_walk: SelectorIter (src/selector.rs) is not verified; the sequence it yields is the uninterpreted `walk(target, annotations)` (R-outline)')
@@ -332,7 +334,7 @@ def emit_inserted(u, P):
     flags = sorted(set(v[2] for v in INDEX.values()))
 
     def others(m):
-        return [(f'same_{f}', f'self.{f} == old(self).{f}') for f in MAPS if f != m]
+        return [(f'same_{f}', f'self.{f} == old(self).{f}') for f in MAPS + UNTOUCHED if f != m]
     base_inv = [('cmp', CMP), ('live', 'live_annotation(*old(self), handle)'), ('annotation', f'*annotation == {ANN}'),
                 ('frame', 'self.annotations == old(self).annotations && self.config == old(self).config')]
     data_inv = base_inv + others('dataset_data_annotation_map') + [
@@ -363,6 +365,7 @@ def emit_inserted(u, P):
     ]
     ens = [('ok', 'r is Ok'),
            ('frame', f'{N}.annotations == {O}.annotations && {N}.config == {O}.config'),
+           ('other_indices_untouched', ' && '.join(f'{N}.{f} == {O}.{f}' for f in UNTOUCHED)),
            ('dataset_data_annotation_map', f'tr_pushed({O}.dataset_data_annotation_map, {N}.dataset_data_annotation_map, data_entries({ANN}.data@, handle))')]
     for f, (shape, ent, flag) in INDEX.items():
         ens.append((f, f'{shape}_pushed({O}.{f}, {N}.{f}, {ent}({L}, {O}.config.{flag}, handle))'))
